@@ -297,6 +297,12 @@ func checkC04(cs *c04Case, o *pt.Obs) error {
 		}
 		for qi, q := range cs.Queries {
 			text := q.SPL()
+			if q.MeasureFieldInBy() && pt.KnownFindingOpen("C04-measure-field-in-by") {
+				// known finding: such queries can crash the server (see known_findings.jsonl); excluded
+				// by construction so that the search continues behind it
+				o.Known("C04-measure-field-in-by")
+				continue
+			}
 			sr, err := lq.Search(c, sut.Query{Index: "c04idx", Text: text, Start: lo - 1, End: hi + 1, Size: 1000})
 			if err != nil {
 				// "Running such a query never fails merely because a grouping field is absent, sparse or of mixed type"
